@@ -513,6 +513,7 @@ var integer32 = []*instructionType{
 		inputRegCnt:  0,
 		hasOutputReg: true,
 		immediate:    immTypeI,
+		uimm:         true,
 		instrType:    model.TypeCPUStateChange,
 		effects: func(i instruction) []expr.Effect {
 			key := csrKey(i)
@@ -527,6 +528,7 @@ var integer32 = []*instructionType{
 		inputRegCnt:  0,
 		hasOutputReg: true,
 		immediate:    immTypeI,
+		uimm:         true,
 		instrType:    model.TypeCPUStateChange,
 		effects: func(i instruction) []expr.Effect {
 			key := csrKey(i)
@@ -543,6 +545,7 @@ var integer32 = []*instructionType{
 		inputRegCnt:  0,
 		hasOutputReg: true,
 		immediate:    immTypeI,
+		uimm:         true,
 		instrType:    model.TypeCPUStateChange,
 		effects: func(i instruction) []expr.Effect {
 			key := csrKey(i)
